@@ -121,7 +121,7 @@ def ev_for(i, kind, fn_raises=False):
             return ["c", 0, "fn", [["raise", "E2"]] if fn_raises else [["echo"]]]
         return ["c", i, "value", value_of(i)]
     if kind == "E":
-        return ["c", i, "error", "E1"]
+        return ["c", i, "error", "EF" if i % 2 else "E1"]  # (odd positions fail with a falsy exception instance)
     if kind == "C":
         return ["c", i, "cancel"]
     return None
